@@ -11,6 +11,8 @@ def harnesses(tier):
             {'name': 'earlier-view-N2', 'fn': graph.h_stale_view, 'cfg': {'N': 2, 'nW': 1, 'props': ['C01'], 'ops1': ['ch_remove', 'wbs_remove', 'set_parent'], 'ops2': ['ch_sort', 'ch_reorder', 'ch_insert', 'ch_move', 'ch_remove']}},
             {'name': 'step-N3-W1', 'fn': graph.h_step,
              'cfg': {'prop': 'C01', 'N': 3, 'nW': 1, 'seqlen': 2, 'ops': graph.ALL_OPS}},
+            {'name': 'reparent-N4-detached', 'fn': graph.h_step,
+             'cfg': {'prop': 'C01', 'N': 4, 'nW': 0, 'seqlen': 1, 'ops': ['set_parent', 'ch_append', 'floordiv']}},
             {'name': 'links-N4-flat', 'fn': graph.h_step,
              'cfg': {'prop': 'C01', 'N': 4, 'nW': 0, 'seqlen': 1, 'flat': True, 'ops': graph.LINK_OPS}},
             {'name': 'generator-validation-N3-W2', 'fn': graph.h_generator, 'cfg': {'N': 3, 'nW': 2}},
